@@ -377,7 +377,7 @@ pub fn run(ctx: &mut Ctx) {
         }
     });
 
-    let cases = ctx.tier.pick(150_000u64, 2_000_000u64);
+    let cases = ctx.tier.pick(400_000u64, 3_000_000u64);
     ctx.pbt("c01-random", cases, 3000, |t, st| {
         let input = gen_input(t);
         let _g = crate::watchdog::guard(&input.bytes);
